@@ -50,6 +50,8 @@ def seeded(sd):
         if not ok:
             return os.path.basename(sd), "SKIP (patch does not apply)"
         fired, broken, first = run(d, [prop])
+        if json.load(open(os.path.join(sd, "meta.json"))).get("expected_exit") == 2:
+            return os.path.basename(sd), None if (broken and not fired) else "expected analysis-broken by design, got fired %s broken %s" % (fired, broken[:1])
         if not any(p == prop for p, _ in fired):
             return os.path.basename(sd), "MISSED by %s: fired %s broken %s" % (prop, fired, broken[:1])
         return os.path.basename(sd), None
